@@ -265,6 +265,7 @@ func dumpCommon[E, T any](sb *strings.Builder, p *bbq.Program[E, T], code func([
 type compiled struct {
 	dump         string // canonical dump of instruction program + bytecode program
 	instr        *bbq.InstructionProgram
+	instrOpt     *bbq.InstructionProgram // compiled with the peephole optimiser
 	bytecode     *bbq.Program[byte, []byte]
 	instrPerFunc [][]opcode.Instruction
 }
@@ -312,17 +313,23 @@ func compileOnce(spec progSpec) (res compiled, err error) {
 		dumpCommon(&sb, p, dumpInstrs, func(t bbq.StaticType) string { return fmt.Sprint(t) })
 	}
 	loc := common.ScriptLocation{0x1}
-	// instruction compiler
-	{
+	// instruction compiler, without and with the peephole optimiser (fresh parse + check each time)
+	for _, peephole := range []bool{false, true} {
 		checker := checkFor(spec.Code, loc, programs)
 		programs[loc] = &tu.CompiledProgram{DesugaredElaboration: compiler.NewDesugaredElaboration(checker.Elaboration)}
-		comp := compiler.NewInstructionCompilerWithConfig(interpreter.ProgramFromChecker(checker), loc, compilerConfig(programs))
+		cfg := compilerConfig(programs)
+		cfg.PeepholeOptimizationsEnabled = peephole
+		comp := compiler.NewInstructionCompilerWithConfig(interpreter.ProgramFromChecker(checker), loc, cfg)
 		p := comp.Compile()
-		res.instr = p
-		sb.WriteString("== program (instructions)\n")
+		fmt.Fprintf(&sb, "== program (instructions, peephole=%v)\n", peephole)
 		dumpCommon(&sb, p, dumpInstrs, func(t bbq.StaticType) string { return fmt.Sprint(t) })
-		for _, f := range p.Functions {
-			res.instrPerFunc = append(res.instrPerFunc, f.Code)
+		if !peephole {
+			res.instr = p
+			for _, f := range p.Functions {
+				res.instrPerFunc = append(res.instrPerFunc, f.Code)
+			}
+		} else {
+			res.instrOpt = p
 		}
 		delete(programs, loc)
 	}
